@@ -1085,9 +1085,9 @@ func sample(r *emit.Rng, ps []perturb, limit int) []perturb {
 
 // ---------------------------------------------------------------- name filters
 
-const nNameModes = 7
+const nNameModes = 8
 
-var nameModeTags = []string{"names:nil", "names:all", "names:only-target", "names:all-but-target", "names:empty-non-nil", "names:only-unknown", "names:subset+unknown"}
+var nameModeTags = []string{"names:nil", "names:all", "names:only-target", "names:all-but-target", "names:empty-non-nil", "names:only-unknown", "names:subset+unknown", "names:sample-suffixes"}
 
 func namesFor(mode int, all []string, target string, r *emit.Rng) []string {
 	switch mode {
@@ -1112,6 +1112,17 @@ func namesFor(mode int, all []string, target string, r *emit.Rng) []string {
 		return []string{}
 	case 5:
 		return []string{"no_such_metric"}
+	case 7:
+		// sample names, not family names: <family>_bucket/_sum/_count/_total/_created select nothing
+		sfx := []string{"_bucket", "_sum", "_count", "_total", "_created"}
+		out := []string{}
+		for _, n := range all {
+			out = append(out, n+sfx[r.Intn(len(sfx))])
+			if n == target || r.Chance(1, 3) {
+				out = append(out, n+"_count", n+"_sum", n+"_bucket")
+			}
+		}
+		return out
 	default:
 		out := []string{"no_such_metric"}
 		for _, n := range all {
@@ -1183,6 +1194,7 @@ func (g txGatherer) Gather() ([]*dto.MetricFamily, func(), error) {
 }
 
 type scrapeServer struct {
+	n      int
 	srv    *httptest.Server
 	body   string
 	status int
@@ -1198,7 +1210,23 @@ func newScrapeServer() *scrapeServer {
 		}
 		w.Header().Set("Content-Type", "text/plain; version=0.0.4; charset=utf-8")
 		w.WriteHeader(s.status)
-		w.Write([]byte(s.body))
+		// the body is sent in several flushed writes, every third time with a pause in between,
+		// so that it is not complete when the client's Do returns
+		s.n++
+		b := []byte(s.body)
+		fl, _ := w.(http.Flusher)
+		cut := len(b) / 3
+		if s.status == 200 && fl != nil && cut > 0 {
+			w.Write(b[:cut])
+			fl.Flush()
+			if s.n%8 == 0 {
+				time.Sleep(time.Millisecond)
+			}
+			w.Write(b[cut : 2*cut])
+			fl.Flush()
+			b = b[2*cut:]
+		}
+		w.Write(b)
 	}))
 	return s
 }
@@ -1291,7 +1319,7 @@ func (w *world) compareCase(out *emit.Writer, c *regCtx, helper int, p perturb, 
 	ep := emit.None()
 	if pok {
 		var base string
-		if mode == 6 { // random subset: not cached
+		if mode == 6 || mode == 7 { // random: not cached
 			base = projAll(c.norm0, names)
 		} else if mode == 2 || mode == 3 {
 			base = projAll(c.norm0, names)
@@ -1531,6 +1559,39 @@ func (w *world) malformedStream(dir string, scale int, regs []*regCtx) error {
 			out.Add(emit.Tup("0", "3", emit.I(pGarbage), namesTerm(names), emit.Tup("0", "0", "0", "200"), bp, ep, "()", emit.B(changed), emit.I(cls)),
 				true, "pre:scrape-body-garbage", fmt.Sprintf("class:%d", cls), nameModeTags[mode])
 		}
+	}
+	// a large exposition (hundreds of series, > 64 KiB): own text and one changed value, all helpers;
+	// the scrape goes through the chunked raw target and through real promhttp targets
+	{
+		rs := regSpec{}
+		for f := 0; f < 2; f++ {
+			fs := famSpec{name: fmt.Sprintf("big_family_%d", f), help: "a large family", typ: []int{tGauge, tCounter}[f], labelNames: []string{"series", "pad"}}
+			for i := 0; i < 450; i++ {
+				fs.children = append(fs.children, childSpec{lvs: []string{fmt.Sprintf("s%04d", i), strings.Repeat("x", 60+r.Intn(30))}, val: float64(i)})
+			}
+			rs.fams = append(rs.fams, fs)
+		}
+		c, err := newRegCtx(rs, r)
+		if err != nil {
+			return err
+		}
+		changedText := strings.Replace(c.text0, "} 449\n", "} 449.5\n", 1)
+		for _, p := range []perturb{{pIdentity, c.names[0], c.text0}, {pValue, c.names[0], changedText}} {
+			for helper := 0; helper < 4; helper++ {
+				for _, mode := range []int{0} {
+					w.compareCase(out, c, helper, p, mode, map[int]string{0: projAll(c.norm0, nil)})
+				}
+			}
+			for _, opts := range []promhttp.HandlerOpts{{}, {DisableCompression: true}, {EnableOpenMetrics: true}} {
+				w.srv.h = promhttp.HandlerFor(c.reg, opts)
+				normP, _ := parseNorm(p.text)
+				cls := classify(testutil.ScrapeAndCompare(w.srv.srv.URL, strings.NewReader(p.text)))
+				out.Add(emit.Tup("0", "3", emit.I(p.kind), emit.None(), emit.Tup("0", "0", "0", "200"), c.bodyTab, emit.Some(tableOf(normP, r, true)), "()",
+					emit.B(projAll(c.norm0, nil) != projAll(normP, nil)), emit.I(cls)), true, "scrape:promhttp-large-exposition", fmt.Sprintf("class:%d", cls))
+				w.srv.h = nil
+			}
+		}
+		out.Tag(fmt.Sprintf("large-exposition-bytes>=%dKiB", len(c.text0)/1024), 1)
 	}
 	// scraping real promhttp targets (legacy names only: the handler escapes other names): OpenMetrics
 	// negotiation enabled or not, compression offered or not.  The target exposes the registry, so the
